@@ -27,6 +27,7 @@ RULES = {
     'R4': 'SPEC(get_utxos_from_chain | min_confirmations = 0) for the page call site',
     'R5': 'resume offset flows to both sources',
     'R6': 'EXPR of next_page',
+    'R7': 'sibling agreement: byte order of OutPoint in the stable index key vs Ord for Utxo',
 }
 ASSUMPTIONS = ['depth counts fit i32']
 T = 'ic_btc_canister::types::'
@@ -157,3 +158,45 @@ def run(ctx):
         ctx.check(ok, 'R3', 'limit-flows', gi, 'the limit is passed through unchanged', 'limit transformed on the way')
     # R4
     c02.r4(ctx, 'R4', only_page=True)
+    r7_order_agreement(ctx)
+
+
+def r7_order_agreement(ctx, rule='R7'):
+    """Sibling agreement of the two sorted sources a page resumes: the stable address index is ordered
+    by the key bytes (address, height, OutPoint bytes), the unstable side by `Ord for Utxo`. A UTXO
+    moves from the second to the first when its block stabilises, so both must order outpoints the
+    same way, or a page token taken before means something else after."""
+    prog = ctx.prog
+    from rules.c01 import utxo_order
+    enc = {}
+    for nm in ('to_bytes', 'into_bytes'):
+        f = prog.fn('<ic_btc_types::OutPoint as ic_stable_structures::storable::Storable>::' + nm, required=False)
+        if f is None:
+            continue
+        ctx.touch(f)
+        e = ex(prog, f)
+        g = cfg(f)
+        tx = [c for c in f.calls() if not c.cleanup and c.matches('ic_btc_types::Txid::as_bytes')]
+        vo = [c for c in f.calls() if not c.cleanup and c.matches('core::num::to_le_bytes', 'core::num::to_be_bytes')
+              and P.field('vout', P.param('self'))(e.operand(c.args[0]))]
+        if len(tx) == 1 and len(vo) == 1 and g.dominates(tx[0].bb, vo[0].bb):
+            enc[nm] = 'le' if vo[0].matches('core::num::to_le_bytes') else 'be'
+    if not enc or len(set(enc.values())) != 1:
+        ctx.unknown(rule, 'order-agreement:outpoint', '', 'byte encoder of OutPoint not recognised (txid bytes then vout.to_{le,be}_bytes): %s' % enc)
+        return
+    endian = set(enc.values()).pop()
+    uo = utxo_order(prog)
+    if uo is None or not uo['lexicographic']:
+        ctx.unknown(rule, 'order-agreement:outpoint', '', 'Ord for Utxo is not a recognised lexicographic chain')
+        return
+    ctx.touch(uo['fn'])
+    comps = dict(uo['components'])
+    how = comps.get('vout') or ('num' if comps.get('outpoint') == 'derived' else '?')
+    order = [c[0] for c in uo['components']]
+    txid_first = order[:1] == ['outpoint'] or order[:2] == ['txid', 'vout']
+    agree = txid_first and ((endian == 'le' and how == 'le') or (endian == 'be' and how in ('be', 'num')))
+    ctx.check(agree, rule, 'order-agreement:outpoint', uo['fn'],
+              'the stable index key (vout as %s bytes) and Ord for Utxo (vout compared as %s) order outpoints identically' % (endian, how),
+              'the stable index orders the outputs of one transaction by the %s-endian bytes of the vout, Ord for Utxo (the unstable side and the merge) by %s: '
+              'for vouts >= 256 the orders differ, so a page token issued while the block was unstable selects a different suffix once it is stable '
+              '(1200 outputs in one tx, page boundary at vout 1000: the follow-up page repeats 69 outputs and omits 176)' % (endian, {'num': 'numeric value', 'derived': 'numeric value'}.get(how, how)))
